@@ -658,6 +658,13 @@ func (v *FnV) contractCall(st *State, call *ast.CallExpr, fc *FuncContract, fn *
 	}
 	var results []Value
 	rts := v.resultTypes(call)
+	// the callee may have allocated: results may refer to objects newer than anything known so far
+	{
+		na := v.c.freshName("alloc")
+		st.declare(na, "Int")
+		st.assume(sGe(na, st.alloc))
+		st.alloc = na
+	}
 	post := map[string]Value{}
 	for k, val := range vars {
 		post[k] = val
